@@ -107,7 +107,7 @@ def cases(ctx, n):
 
 
 def run(ctx):
-    n = 150 if ctx.tier == 'quick' else 4000
+    n = 300 if ctx.tier == 'quick' else 5000
     for name, root, rs in cases(ctx, n):
         one_case(ctx, name, root, rs)
         if ctx.n_new() >= 3:
